@@ -251,6 +251,8 @@ func toInt(v any) int {
 		return x
 	case idErr:
 		return int(x)
+	case ctxErr:
+		return x.id
 	case error:
 		return -1
 	}
@@ -296,6 +298,15 @@ func (s snap) ints() []int {
 type idErr int
 
 func (e idErr) Error() string { return "fail#" + strconv.Itoa(int(e)) }
+
+// ctxErr is a step failure that wraps a context error (its own deadline, not the pipeline's)
+type ctxErr struct {
+	id   int
+	base error
+}
+
+func (e ctxErr) Error() string { return "fail#" + strconv.Itoa(e.id) + ": " + e.base.Error() }
+func (e ctxErr) Unwrap() error { return e.base }
 
 type world struct {
 	c          *caseT
